@@ -648,3 +648,101 @@ def uring_recv_arms(fx):
     yield ob("R-C06-9", "recv#uring#family_arms", n >= 8 and k >= 2 and not bad, h, None,
              "tags %s; %d receive-completion paths and %d parse sites: flag, helper and re-armed entry all belong to the socket the completion came from; "
              "a finished multishot receive is re-armed exactly once; deviations: %s" % (fam, n, k, sorted(bad)[:3]), {"paths": n, "parse_sites": k})
+
+
+def _socket_family_of(body, op):
+    """the address family (Ipv4 / Ipv6) of the Option<Socket<V>> local an operand is derived from (backward def chase by type)"""
+    pl = op.get("cp") or op.get("mv")
+    if pl is None:
+        return set()
+    defs = {}
+    for blk in body.blocks:
+        for st in blk["stmts"]:
+            if st.get("k") == "assign":
+                defs.setdefault(st["lhs"]["l"], []).append(("rv", st["rv"]))
+        t = blk["term"]
+        if t["k"] == "call" and t.get("dest") is not None:
+            defs.setdefault(t["dest"]["l"], []).append(("call", t))
+
+    def locals_in(o):
+        out = []
+        if isinstance(o, dict):
+            if "l" in o and isinstance(o["l"], int):
+                out.append(o["l"])
+            for v in o.values():
+                out += locals_in(v)
+        elif isinstance(o, list):
+            for v in o:
+                out += locals_in(v)
+        return out
+    seen, todo, fams = set(), [pl["l"]], set()
+    while todo and len(seen) < 200:
+        l = todo.pop()
+        if l in seen:
+            continue
+        seen.add(l)
+        ty = body.locals[l]["ty"]
+        m = re.search(r"Option<.*Socket<.*\b(Ipv4|Ipv6)>>", ty)
+        if m:
+            fams.add(m.group(1))
+            continue
+        for kind, x in defs.get(l, []):
+            todo += locals_in(x["ops"] if kind == "call" else x)
+    return fams
+
+
+@PROP.rule("R-C06-10", floor=2, doc="mio backend: each socket is registered under its own token and a readiness event is served by reading that socket; "
+                                    "the receive loop only stops when the socket has nothing more to deliver (edge-triggered readiness)")
+def mio_dispatch(fx):
+    run = fx.fn("aquatic_udp::workers::socket::mio::run")
+    reg = {}
+    for i, t in run.calls(r"Registry::register$"):
+        tok = t["ops"][2].get("c", {}).get("int") if len(t["ops"]) > 2 else None
+        reg.setdefault(tok, set()).update(_socket_family_of(run, t["ops"][1]))
+    reads = {}
+    bad = set()
+    for p in cpaths(fx, run):
+        for i, e in enumerate(p.effects):
+            if e[0] == "call" and e[1].endswith("Socket::read_and_handle_requests"):
+                fam = [g.split("::")[-1] for g in (e[6] if len(e) > 6 else ()) if re.search(r"Ipv[46]$", g)]
+                toks = []
+                for a in p.atoms:
+                    if a["neff"] <= i:
+                        m = re.match(r"^Event::token\(.*\)\.0 == (\d+)$", sym.atom_text(fx, a))
+                        if m:
+                            toks.append(int(m.group(1)))
+                if not toks or len(fam) != 1:
+                    bad.add("read of %s socket not selected by an event token (%s)" % (fam, toks[-1:]))
+                    continue
+                reads.setdefault(toks[-1], set()).add(fam[0])
+    ok = len(reg) == 2 and all(len(v) == 1 for v in reg.values()) and reads == reg and not bad
+    yield ob("R-C06-10", "dispatch#mio#token_per_socket", ok, run, None,
+             "registered (token -> socket family) %s; readiness events served by reading (token -> family) %s %s" % (
+                 {k: sorted(v) for k, v in reg.items()}, {k: sorted(v) for k, v in reads.items()}, sorted(bad)), {"registered": {str(k): sorted(v) for k, v in reg.items()}})
+    # drain: the only way out of the receive loop is recv_from -> Err(WouldBlock)
+    b = fx.fn("aquatic_udp::workers::socket::mio::socket::Socket::read_and_handle_requests")
+    n = 0
+    bad = set()
+    for p in cpaths(fx, b):
+        if p.end != "return":
+            continue
+        n += 1
+        last = None
+        for a in p.atoms:
+            ab = sym.atom_bool(a)
+            v = sym.atom_variant(fx, a)
+            if v and "UdpSocket::recv_from(" in show(v[0]) and not show(strip_after(v[0])).startswith("Request::parse_bytes"):
+                last = ("variant", v[1], v[2])
+            elif ab:
+                x = strip_after(ab[0])
+                if x[0] == "call" and re.search(r"ErrorKind as .*PartialEq>::eq$", x[1]) and len(x[2]) == 2 and "UdpSocket::recv_from(" in show(x[2][0]):
+                    rhs = x[2][1]
+                    val = None
+                    if rhs[0] == "c" and rhs[2] == "promoted":
+                        pr = [q.ret for q in paths(fx, fx.promoted(b, rhs[3])) if q.end == "return"]
+                        val = show(pr[0]) if pr else None
+                    last = ("kind", val, ab[1])
+        if last != ("kind", "ErrorKind::WouldBlock{}", True):
+            bad.add(str(last))
+    yield ob("R-C06-10", "dispatch#mio#drains_until_would_block", n >= 1 and not bad, b, None,
+             "%d returning paths of the receive loop; each leaves it on recv_from -> Err(kind == WouldBlock); other exits: %s" % (n, sorted(bad)[:3]), {"paths": n})
